@@ -274,6 +274,11 @@ impl RE {
         }
     }
 
+    /// like `to_expr`, but a panic inside one of reval's constructors is returned as an error
+    pub fn try_to_expr(&self) -> Result<Expr, String> {
+        crate::engine::panic::catch(|| self.to_expr())
+    }
+
     /// build the real tree through reval's public constructors
     pub fn to_expr(&self) -> Expr {
         match self {
